@@ -515,3 +515,272 @@ Proof.
   change (@nil ms_obs) with (@nil ms_obs ++ [] ++ [] ++ []).
   eapply LS_trans; [exact L2|]. eapply LS_trans; [exact L3|]. eapply LS_trans; [exact L4|exact L5].
 Qed.
+
+(* generic solver for LS goals whose two sides are explicit *)
+Ltac ls_solve :=
+  unfold LS; split; [reflexivity|split; [reflexivity|split;
+  [ let X := fresh "X" in let H := fresh "HX" in
+    intros X H; unfold hfold; cbn [fold_left app]; unfold hstep; cbn [obs_effect];
+    rewrite ?N.eqb_refl; destruct X; cbn in H |- *; auto
+  | let X := fresh "X" in let B := fresh "B" in let acc := fresh "acc" in let HB := fresh "HB" in
+    intros X B acc HB; eapply hfold_other; [exact HB|]; cbn [app]; repeat constructor ]]].
+
+Lemma LS_app_neutral a o a' n : LS a o a' -> Forall neutral n -> LS a (o ++ n) a'.
+Proof.
+  intros L Hn. rewrite <- (app_nil_r (o ++ n)), <- app_assoc. eapply LS_trans; [exact L|].
+  cbn [app]. rewrite app_nil_r. apply LS_neutral; auto.
+Qed.
+
+Lemma LS_neutral_app a o a' n : Forall neutral n -> LS a o a' -> LS a (n ++ o) a'.
+Proof.
+  intros Hn L. eapply LS_trans; [|exact L]. apply LS_neutral; auto.
+Qed.
+
+Lemma neutral_fail_kind now a k e : k <> MsKDisableUnsol -> k <> MsKEnableUnsol ->
+  neutral (MsOFail now a k e).
+Proof.
+  intros H1 H2 X A. cbn [obs_effect]. destruct e; try reflexivity.
+  destruct (N.eqb a A); [|reflexivity]. destruct X, k; try reflexivity; congruence.
+Qed.
+Lemma neutral_fail_err now a k e : e <> MsEIin2 -> neutral (MsOFail now a k e).
+Proof. intros H X A. cbn [obs_effect]. destruct e; try reflexivity. congruence. Qed.
+Lemma neutral_ok_kind now a k fc s : k <> MsKDisableUnsol -> k <> MsKEnableUnsol -> k <> MsKIntegrity ->
+  neutral (MsOOk now a k fc s).
+Proof.
+  intros H1 H2 H3 X A. cbn [obs_effect]. destruct (N.eqb a A); [|reflexivity].
+  destruct X, k; try reflexivity; congruence.
+Qed.
+
+(* handle_unsolicited *)
+Lemma handle_unsolicited_LS now f a : forall a' o, ms_handle_unsolicited now f a = (a', o) -> LS a o a'.
+Proof.
+  intros a' o. unfold ms_handle_unsolicited.
+  destruct (ms_process_iin now f a) as [a1 seen] eqn:E. apply process_iin_LS in E.
+  destruct (negb (ms_integrity_complete a1 || negb (ms_has_objects f))).
+  { intros H; inversion H; subst. apply LS_app_neutral; [exact E|]. neutral_tac. }
+  destruct (negb (ms_r_ok f)).
+  { intros H; inversion H; subst. apply LS_app_neutral; [exact E|]. neutral_tac. }
+  intros H; inversion H; subst; clear H.
+  eapply LS_trans; [exact E|].
+  eapply LS_neutral; try reflexivity.
+  - intros X; destruct X; cbn; auto.
+  - apply Forall_app; split.
+    + destruct (match ms_a_last_unsol a1 with Some old => _ | None => false end); [neutral_tac|].
+      apply Forall_app; split; [destruct (ms_r_ok f)|]; neutral_tac.
+    + destruct (ms_r_con f); neutral_tac.
+Qed.
+
+(* Task::on_task_error followed by the notification of the failure *)
+Lemma task_error_LS now t e r a : forall a' o, ms_task_error now t e r a = (a', o) ->
+  LS a (o ++ [MsOFail now (ms_a_addr a) (ms_task_type t) e]) a'.
+Proof.
+  intros a' o. unfold ms_task_error.
+  destruct t as [| m | m | m | m | id m | st [tok|] | m tok | tok | [tok|]]; cbn [ms_task_type].
+  - (* clear restart *)
+    destruct (match e with MsEIin2 => negb r | _ => false end) eqn:Ee;
+      intros H; inversion H; subst; clear H.
+    + ls_solve; destruct e; cbn; auto.
+    + apply LS_app_neutral; [apply LS_lower_clear, lowers_failure|].
+      constructor; [|constructor]. apply neutral_fail_kind; discriminate.
+  - (* enable *)
+    destruct e; intros H; inversion H; subst; clear H;
+      try (apply LS_app_neutral; [apply LS_lower_enable, lowers_failure|];
+           constructor; [apply neutral_fail_err; discriminate|constructor]).
+    ls_solve.
+  - (* disable *)
+    destruct e; intros H; inversion H; subst; clear H;
+      try (apply LS_app_neutral; [apply LS_lower_disable, lowers_failure|];
+           constructor; [apply neutral_fail_err; discriminate|constructor]).
+    ls_solve.
+  - intros H; inversion H; subst; clear H.
+    apply LS_app_neutral; [apply LS_lower_integrity, lowers_failure|].
+    constructor; [|constructor]. apply neutral_fail_kind; discriminate.
+  - intros H; inversion H; subst; clear H.
+    apply LS_app_neutral; [apply LS_set_evscan|].
+    constructor; [|constructor]. apply neutral_fail_kind; discriminate.
+  - intros H; inversion H; subst; clear H.
+    apply LS_app_neutral; [apply LS_set_polls|].
+    constructor; [|constructor]. apply neutral_fail_kind; discriminate.
+  - intros H; inversion H; subst; clear H. apply LS_neutral; auto.
+    constructor; [intros X A; reflexivity|]. constructor; [|constructor]. apply neutral_fail_kind; discriminate.
+  - intros H; inversion H; subst; clear H.
+    apply LS_app_neutral; [apply LS_set_time|].
+    constructor; [|constructor]. apply neutral_fail_kind; discriminate.
+  - intros H; inversion H; subst; clear H. apply LS_neutral; auto.
+    constructor; [intros X A; reflexivity|]. constructor; [|constructor]. apply neutral_fail_kind; discriminate.
+  - intros H; inversion H; subst; clear H. apply LS_neutral; auto.
+    constructor; [intros X A; reflexivity|]. constructor; [|constructor]. apply neutral_fail_kind; discriminate.
+  - intros H; inversion H; subst; clear H. apply LS_neutral; auto.
+    constructor; [intros X A; reflexivity|]. constructor; [|constructor]. apply neutral_fail_kind; discriminate.
+  - intros H; inversion H; subst; clear H. apply LS_neutral; auto.
+    constructor; [|constructor]. apply neutral_fail_kind; discriminate.
+Qed.
+
+(* ReadTask::complete followed by the notification of the success *)
+Lemma read_complete_LS now t seq a : forall a' o, ms_read_complete now t a = (a', o) ->
+  LS a (o ++ [MsOOk now (ms_a_addr a) (ms_task_type t) 1%N seq]) a'.
+Proof.
+  intros a' o. unfold ms_read_complete.
+  destruct t as [| m | m | m | m | id m | st p | m tok | tok | p]; cbn [ms_task_type];
+    intros H; inversion H; subst; clear H.
+  - apply LS_neutral; auto. constructor; [|constructor]. apply neutral_ok_kind; discriminate.
+  - ls_solve.
+  - ls_solve.
+  - ls_solve.
+  - apply LS_app_neutral; [apply LS_set_evscan|].
+    constructor; [|constructor]. apply neutral_ok_kind; discriminate.
+  - apply LS_app_neutral; [apply LS_set_polls|].
+    constructor; [|constructor]. apply neutral_ok_kind; discriminate.
+  - apply LS_neutral; auto. constructor; [|constructor]. apply neutral_ok_kind; discriminate.
+  - apply LS_neutral; auto. constructor; [intros X A; reflexivity|].
+    constructor; [|constructor]. apply neutral_ok_kind; discriminate.
+  - apply LS_neutral; auto. constructor; [|constructor]. apply neutral_ok_kind; discriminate.
+  - apply LS_neutral; auto. constructor; [|constructor]. apply neutral_ok_kind; discriminate.
+Qed.
+
+Lemma tsync_report_LS now p r a : forall a' o, ms_tsync_report now p r a = (a', o) -> LS a o a'.
+Proof.
+  intros a' o. unfold ms_tsync_report. destruct p as [tok|].
+  - intros H; inversion H; subst. apply LS_neutral; auto. neutral_tac.
+  - destruct r; intros H; inversion H; subst; apply LS_set_time.
+Qed.
+
+(* what rx_nonread emits after NonReadTask::handle_response *)
+Definition handled_obs (now : ms_time) (A : N) (t : ms_task) (fc0 seq : N) (h : ms_handled) : list ms_obs :=
+  match h with
+  | MsHComplete => [MsOOk now A (ms_task_type t) fc0 seq]
+  | MsHError e => [MsOFail now A (ms_task_type t) e]
+  | MsHContinue _ => []
+  end.
+
+Lemma nonread_handle_LS now sys t f fc0 seq a : forall a' o h,
+  ms_nonread_handle now sys t f a = (a', o, h) ->
+  LS a (o ++ handled_obs now (ms_a_addr a) t fc0 seq h) a' /\
+  match h with MsHContinue t' => ms_task_type t' = ms_task_type t | _ => True end.
+Proof.
+  intros a' o h. unfold ms_nonread_handle.
+  destruct t as [| m | m | m | m | id m | st p | m tok | tok | p]; cbn [ms_task_type handled_obs].
+  - (* clear restart *)
+    destruct (ms_iin_restart f); intros H; inversion H; subst; clear H; (split; [|exact I]).
+    + apply LS_app_neutral; [apply LS_lower_clear, lowers_failure|].
+      constructor; [|constructor]. apply neutral_ok_kind; discriminate.
+    + cbn [handled_obs ms_task_type]. ls_solve.
+  - intros H; inversion H; subst; clear H. split; [|exact I]. cbn [handled_obs ms_task_type]. ls_solve.
+  - intros H; inversion H; subst; clear H. split; [|exact I]. cbn [handled_obs ms_task_type]. ls_solve.
+  - intros H; inversion H; subst; clear H. split; [|exact I]. cbn [handled_obs ms_task_type app].
+    ls_solve.
+  - intros H; inversion H; subst; clear H. split; [|exact I]. cbn [handled_obs ms_task_type app].
+    apply LS_neutral; auto. constructor; [|constructor]. apply neutral_ok_kind; discriminate.
+  - intros H; inversion H; subst; clear H. split; [|exact I]. cbn [handled_obs ms_task_type app].
+    apply LS_neutral; auto. constructor; [|constructor]. apply neutral_ok_kind; discriminate.
+  - (* time synchronisation *)
+    assert (R : forall r a1 o1 e, ms_tsync_report now p r a = (a1, o1) -> e <> MsEIin2 ->
+              LS a (o1 ++ [MsOFail now (ms_a_addr a) MsKTimeSync e]) a1).
+    { intros r a1 o1 e Hr He. apply LS_app_neutral; [eapply tsync_report_LS; exact Hr|].
+      constructor; [|constructor]. apply neutral_fail_err; exact He. }
+    assert (Rok : forall a1 o1, ms_tsync_report now p None a = (a1, o1) ->
+              LS a (o1 ++ [MsOOk now (ms_a_addr a) MsKTimeSync fc0 seq]) a1).
+    { intros a1 o1 Hr. apply LS_app_neutral; [eapply tsync_report_LS; exact Hr|].
+      constructor; [|constructor]. apply neutral_ok_kind; discriminate. }
+    destruct st as [t0 | ts | ts | ts].
+    + destruct (if ms_r_ok f then ms_r_delay f else None) as [d|].
+      * destruct (_ <? d).
+        { destruct (ms_tsync_report now p (Some MsEBadDelay) a) as [a1 o1] eqn:Er.
+          intros H; inversion H; subst; clear H. split; [|exact I]. eapply R; [exact Er|discriminate]. }
+        destruct (ms_system_time sys now) as [stm|].
+        { destruct (_ <? _).
+          - destruct (ms_tsync_report now p (Some MsEOverflow) a) as [a1 o1] eqn:Er.
+            intros H; inversion H; subst; clear H. split; [|exact I]. eapply R; [exact Er|discriminate].
+          - intros H; inversion H; subst; clear H. split; [|reflexivity].
+            cbn [handled_obs app]. apply LS_refl. }
+        destruct (ms_tsync_report now p (Some MsENoSystemTime) a) as [a1 o1] eqn:Er.
+        intros H; inversion H; subst; clear H. split; [|exact I]. eapply R; [exact Er|discriminate].
+      * destruct (ms_tsync_report now p (Some MsEUnexpectedHeaders) a) as [a1 o1] eqn:Er.
+        intros H; inversion H; subst; clear H. split; [|exact I]. eapply R; [exact Er|discriminate].
+    + destruct (ms_has_objects f).
+      { destruct (ms_tsync_report now p (Some MsEUnexpectedHeaders) a) as [a1 o1] eqn:Er.
+        intros H; inversion H; subst; clear H. split; [|exact I]. eapply R; [exact Er|discriminate]. }
+      destruct (ms_iin_need_time f).
+      { destruct (ms_tsync_report now p (Some MsEStillNeedsTime) a) as [a1 o1] eqn:Er.
+        intros H; inversion H; subst; clear H. split; [|exact I]. eapply R; [exact Er|discriminate]. }
+      destruct (ms_tsync_report now p None a) as [a1 o1] eqn:Er.
+      intros H; inversion H; subst; clear H. split; [|exact I]. apply (Rok _ _ eq_refl).
+    + destruct (ms_has_objects f).
+      { destruct (ms_tsync_report now p (Some MsEUnexpectedHeaders) a) as [a1 o1] eqn:Er.
+        intros H; inversion H; subst; clear H. split; [|exact I]. eapply R; [exact Er|discriminate]. }
+      intros H; inversion H; subst; clear H. split; [|reflexivity]. cbn [handled_obs app]. apply LS_refl.
+    + destruct (ms_has_objects f).
+      { destruct (ms_tsync_report now p (Some MsEUnexpectedHeaders) a) as [a1 o1] eqn:Er.
+        intros H; inversion H; subst; clear H. split; [|exact I]. eapply R; [exact Er|discriminate]. }
+      destruct (ms_iin_need_time f).
+      { destruct (ms_tsync_report now p (Some MsEStillNeedsTime) a) as [a1 o1] eqn:Er.
+        intros H; inversion H; subst; clear H. split; [|exact I]. eapply R; [exact Er|discriminate]. }
+      destruct (ms_tsync_report now p None a) as [a1 o1] eqn:Er.
+      intros H; inversion H; subst; clear H. split; [|exact I]. apply (Rok _ _ eq_refl).
+  - intros H; inversion H; subst; clear H. split; [|exact I]. cbn [handled_obs ms_task_type app].
+    apply LS_neutral; auto. constructor; [|constructor]. apply neutral_ok_kind; discriminate.
+  - destruct (ms_has_objects f); intros H; inversion H; subst; clear H; (split; [|exact I]);
+      cbn [handled_obs ms_task_type app]; apply LS_neutral; auto.
+    + constructor; [intros X A; reflexivity|]. constructor; [|constructor].
+      apply neutral_fail_err; discriminate.
+    + constructor; [intros X A; reflexivity|]. constructor; [|constructor].
+      apply neutral_ok_kind; discriminate.
+  - intros H; inversion H; subst; clear H. split; [|exact I]. cbn [handled_obs ms_task_type app].
+    apply LS_neutral; auto. constructor; [|constructor]. apply neutral_ok_kind; discriminate.
+Qed.
+
+(* Task::start *)
+Lemma task_start_LS now sys t a : forall a' o r, ms_task_start now sys t a = (a', o, r) ->
+  LS a o a' /\ Forall neutral o /\
+  match r with Some t' => ms_task_type t' = ms_task_type t /\ ms_is_read_task t' = ms_is_read_task t
+                          /\ (forall p, t' = MsTLink p -> t = MsTLink p)
+                          /\ (forall p, t = MsTLink p -> t' = MsTLink p)
+             | None => True end.
+Proof.
+  intros a' o r. unfold ms_task_start.
+  destruct t as [| m | m | m | m | id m | st p | m tok | tok | p];
+    try (intros H; inversion H; subst; clear H;
+         split; [apply LS_refl|split; [constructor|repeat split; auto]]).
+  destruct st as [t0 | [ts|] | ts | ts];
+    try (intros H; inversion H; subst; clear H;
+         split; [apply LS_refl|split; [constructor|repeat split; auto; intros; discriminate]]).
+  all: destruct (ms_system_time sys now) as [stm|];
+    [ intros H; inversion H; subst; clear H;
+      split; [apply LS_refl|split; [constructor|repeat split; auto; intros; discriminate]]
+    | destruct (ms_tsync_report now p (Some MsENoSystemTime) a) as [a1 o1] eqn:Er;
+      intros H; inversion H; subst; clear H;
+      split; [eapply tsync_report_LS; exact Er|split; [|exact I]];
+      unfold ms_tsync_report in Er; destruct p; inversion Er; subst; neutral_tac ].
+Qed.
+
+(* Association::priority_task *)
+Lemma priority_task_LS now sys q : forall a a' o r, ms_priority_task now sys q a = (a', o, r) ->
+  LS a o a' /\ Forall neutral o.
+Proof.
+  induction q as [|t q IH]; intros a a' o r; cbn [ms_priority_task].
+  - intros H; inversion H; subst. split; [apply LS_set_queue|constructor].
+  - destruct (ms_task_start now sys t a) as [[a1 o1] [t'|]] eqn:Es;
+      apply task_start_LS in Es as (L1 & N1 & _).
+    + intros H; inversion H; subst. split; [|exact N1].
+      rewrite <- (app_nil_r o). eapply LS_trans; [exact L1|apply LS_set_queue].
+    + destruct (ms_priority_task now sys q a1) as [[a2 o2] r2] eqn:Ep.
+      apply IH in Ep as (L2 & N2). intros H; inversion H; subst.
+      split; [eapply LS_trans; eauto|apply Forall_app; split; assumption].
+Qed.
+
+(* Association::next_task *)
+Lemma assoc_next_task_LS fuel now sys : forall a a' o r, ms_assoc_next_task fuel now sys a = (a', o, r) ->
+  LS a o a' /\ Forall neutral o.
+Proof.
+  induction fuel as [|k IH]; intros a a' o r; cbn [ms_assoc_next_task].
+  - intros H; inversion H; subst. split; [apply LS_refl|constructor].
+  - destruct (ms_get_next_task a now) as [|t|nb].
+    + intros H; inversion H; subst. split; [apply LS_refl|constructor].
+    + destruct (ms_task_start now sys t a) as [[a1 o1] [t'|]] eqn:Es;
+        apply task_start_LS in Es as (L1 & N1 & _).
+      * intros H; inversion H; subst. split; assumption.
+      * destruct (ms_assoc_next_task k now sys a1) as [[a2 o2] r2] eqn:Ep.
+        apply IH in Ep as (L2 & N2). intros H; inversion H; subst.
+        split; [eapply LS_trans; eauto|apply Forall_app; split; assumption].
+    + intros H; inversion H; subst. split; [apply LS_refl|constructor].
+Qed.
